@@ -417,3 +417,45 @@ Proof.
   split; [exact Hs|]. split; [exact Ho|]. split; [exact He|]. intros Hxe.
   apply (Hne Hxe). apply in_or_app. left. rewrite <- in_rev. now apply Hall.
 Qed.
+
+(* ------------------------------------------------------------------ layer names are not empty *)
+Lemma lss_last s c : c <> sl -> forall cur acc found,
+  snd (last_slash_split (s ++ [c]) cur acc found) <> [].
+Proof.
+  intros Hc. induction s as [|x s IH]; intros cur acc found; cbn [app last_slash_split].
+  - destruct (Ascii.eqb c sl) eqn:E; [apply Ascii.eqb_eq in E; contradiction|].
+    cbn. intros H. apply (f_equal (@length _)) in H. rewrite app_length in H. cbn in H. lia.
+  - destruct (Ascii.eqb x sl); apply IH.
+Qed.
+
+Lemma strip_head r : match strip_trailing_slashes_rev r with [] => True | ch :: _ => ch <> sl end.
+Proof.
+  induction r as [|ch r IH]; cbn [strip_trailing_slashes_rev]; [exact I|]. destruct (Ascii.eqb ch sl) eqn:E; [exact IH|].
+  now apply Ascii.eqb_neq.
+Qed.
+
+Lemma pathbase_nonempty p : pathbase p <> [].
+Proof.
+  unfold pathbase. destruct p as [|a p]; [discriminate|].
+  pose proof (strip_head (rev (a :: p))) as H.
+  destruct (strip_trailing_slashes_rev (rev (a :: p))) as [|ch r]; [discriminate|]. cbn [rev].
+  destruct (rev r ++ [ch]) eqn:E; [destruct (rev r); discriminate|]. rewrite <- E.
+  unfold pathsplit. pose proof (lss_last (rev r) ch H [] [] false) as L.
+  destruct (last_slash_split (rev r ++ [ch]) [] [] false) as [[fd d] fl]. exact L.
+Qed.
+
+Lemma read_layer_files_names c f x : In x (read_layer_files c f) -> In (l_name x) (children f (c_layers c)).
+Proof.
+  unfold read_layer_files. intros H. apply (proj1 (sort_in _ _)).
+  induction (sort (children f (c_layers c))) as [|n ns IH]; cbn [fold_right] in H; [destruct H|].
+  destruct (legal_name n); [|right; auto].
+  destruct (load_layer c f n) as [l|] eqn:El; [|right; auto].
+  destruct H as [<-|H]; [|right; auto]. left. unfold load_layer in El.
+  destruct (if is_file f _ then _ else None); [|discriminate]. injection El as <-. reflexivity.
+Qed.
+
+Lemma layer_name_nonempty c f x : In x (read_layer_files c f) -> l_name x <> [].
+Proof.
+  intros H. apply read_layer_files_names in H. unfold children in H. apply in_map_iff in H as (e & <- & _).
+  apply pathbase_nonempty.
+Qed.
